@@ -28,8 +28,8 @@ class Hook(commands.StartHook):
 
 
 class Ev(events.Event):
-    def __init__(self, n, block, target=None):
-        self.n, self.block, self.target = n, block, target
+    def __init__(self, n, block, target=None, wake=False):
+        self.n, self.block, self.target, self.wake = n, block, target, wake
 
     def __repr__(self):
         return f"Ev({self.n},{self.block},{self.target})"
@@ -50,10 +50,16 @@ class Leaf(layer.Layer):
         if isinstance(event, events.DataReceived):
             self.log.append(("data", bytes(event.data)))
             return
+        if isinstance(event, events.Wakeup):
+            # completion of a NON-blocking command this layer issued earlier: an ordinary event
+            self.log.append(("wakeup", event.command.delay))
+            return
         if not isinstance(event, Ev):
             self.log.append(("other", type(event).__name__))
             return
         self.log.append(("start", event.n))
+        if event.wake:
+            yield commands.RequestWakeup(float(event.n))  # non-blocking; its completion arrives any time later
         for i in range(event.block):
             r = yield Hook((self.name, event.n, i))
             self.log.append(("resumed", event.n, i, r))
@@ -132,6 +138,62 @@ def h_single(X, N):
     exp = _oracle(sent)
     X.reach("end")
     X.check(got == exp, "C04/single/order", f"log {got} != sequential reference {exp}")
+
+
+def h_foreign_completion(X, N):
+    """a completion that belongs to ANOTHER command (the Wakeup of a non-blocking RequestWakeup issued
+    earlier) reaches the layer while it waits for its own hook completion: it must be queued and handled as
+    an event in arrival order, and the waiting operation must be resumed with exactly its own completion"""
+    ctx = sansio.make_context()
+    l = Leaf(ctx)
+    hooks, wakeups = [], []
+    arrivals = []  # reference: ("ev", n, blocks, wake) / ("wakeup", delay) in arrival order
+    n = 0
+
+    def pump(ev):
+        for c in l.handle_event(ev):
+            if isinstance(c, Hook):
+                hooks.append(c)
+            elif isinstance(c, commands.RequestWakeup):
+                wakeups.append(c)
+
+    pump(events.Start())
+    for step in range(N):
+        s = X.choose("step", 6)  # 0,1: event (0/1 blocks) that also requests a wakeup; 2: event with 1 block; 3: complete hook; 4: deliver a wakeup; 5: stop
+        if s == 5:
+            break
+        if s <= 2:
+            b, wake = (s, True) if s <= 1 else (1, False)
+            arrivals.append(("ev", n, b, wake))
+            pump(Ev(n, b, wake=wake))
+            n += 1
+        elif s == 3:
+            if hooks:
+                c = hooks.pop(0)
+                pump(events.HookCompleted(c, ("reply",) + c.tag))
+        elif wakeups:
+            c = wakeups.pop(0)
+            if hooks:
+                X.reach("foreign-completion-while-paused")
+            arrivals.append(("wakeup", c.delay))
+            pump(events.Wakeup(c))
+        X.check(len(hooks) <= 1, "C04/foreign/two-pending", f"{len(hooks)} hooks outstanding at once")
+    while hooks:
+        c = hooks.pop(0)
+        pump(events.HookCompleted(c, ("reply",) + c.tag))
+    exp = []
+    for a in arrivals:
+        if a[0] == "wakeup":
+            exp.append(("wakeup", a[1]))
+        else:
+            _, k, b, _w = a
+            exp.append(("start", k))
+            for i in range(b):
+                exp.append(("resumed", k, i, ("reply", "L", k, i)))
+            exp.append(("end", k))
+    got = [e for e in l.log if e[0] != "started"]
+    X.reach("end")
+    X.check(got == exp, "C04/foreign/order", f"log {got} != sequential reference {exp}")
 
 
 def h_siblings(X, N):
@@ -258,7 +320,10 @@ def h_nextlayer(X, N):
 
 def obligations(tier):
     n1, n2, n3 = (7, 5, 6) if tier == "quick" else (9, 7, 8)
+    n4 = 6 if tier == "quick" else 8
     return [
+        Symx("foreign-completion", lambda X: h_foreign_completion(X, n4), bounds=f"every schedule of <= {n4} steps over {{event (0/1 blocks) that also issues a non-blocking RequestWakeup, blocking event, deliver hook completion, deliver a pending Wakeup}}",
+             encoded=ENCODED, must_reach=["end", "foreign-completion-while-paused"], parallel_depth=3),
         Symx("single-layer-schedule", lambda X: h_single(X, n1), bounds=f"every schedule of <= {n1} steps over {{event blocking 0/1/2 times, deliver oldest completion}}",
              encoded=ENCODED, must_reach=["end", "completion"], parallel_depth=3),
         Symx("sibling-blocking", lambda X: h_siblings(X, n2), bounds=f"every schedule of <= {n2} steps over two child layers under one parent (event to A/B blocking 0/1 times, completion for A/B)",
